@@ -1,43 +1,61 @@
-(* C07 -- property packages: which chemical's functors sit at each index of package.mixture.
-   Executable definitions only.  A chemical is a number (its index in the case's list of chemicals);
-   a package records its chemicals in order and, for every model index of its mixture, the chemical whose
-   H / S / Cn functor the ideal mixture models hold there (they are addressed positionally: models[i]).
-   Whether subset rebuilds the mixture is GENERATED (Gen_Packages.v); the rest is modelled by hand from
-   _thermo.py (__init__ :127/:288, extended :167, subset :174/:302, ideal :198/:323) and tied by the
-   `pkg` correspondence cases. *)
+(* C07 -- property packages: which chemical's functors sit at each index of package.mixture, and WHICH VERSION.
+   Executable definitions only.  A chemical is a number (its index in the store of chemicals); St is the whole
+   state of that store (for the `pkg` cases: unit; for the `pkghist` cases: the state of Rewire.v).
+   A package records its chemicals in order and, for every model index of its mixture, the chemical whose
+   H / S / Cn functor the ideal mixture models evaluate there (they are addressed positionally: models[i]),
+   together with [None] when the model looks the chemical's CURRENT functor up at call time, or [Some st] when
+   it keeps the functor objects that existed in store state st, when the mixture was built.
+   Generated (Gen_Packages.v): the order of the models, whether they are live, whether subset rebuilds the
+   mixture.  The rest is modelled by hand from _thermo.py (__init__ :127/:288, extended :167, subset :174/:302,
+   ideal :198/:323) and tied by the `pkg` / `pkghist` correspondence cases. *)
 From Coq Require Import List Bool.
 From V Require Import C07.Gen_Packages.
 Import ListNotations.
 
-Record pkg : Type := mkPkg { p_ideal : bool;             (* IdealThermo rather than Thermo *)
-                             p_chems : list nat; p_models : list nat }.
+Section Pk.
+  Variable St : Type.
 
-Inductive pop : Type :=
-| PNew (cs : list nat)                 (* Thermo(cs) *)
-| PSubset (i : nat) (sel : list nat)   (* store.append(store[i].subset(sel)) with a new list of chemicals *)
-| PExtended (i : nat) (extra : list nat)   (* store.append(store[i].extended(extra)) *)
-| PIdeal (i : nat).                    (* store.append(store[i].ideal()) *)
+  Record pkg : Type := mkPkg { p_ideal : bool;             (* IdealThermo rather than Thermo *)
+                               p_chems : list nat; p_models : list (nat * option St) }.
 
-Definition subset_of (p : pkg) (sel : list nat) : pkg :=
-  let rebuilds := if p_ideal p then IdealThermo_subset_rebuilds_mixture else Thermo_subset_rebuilds_mixture in
-  mkPkg (p_ideal p) sel (if rebuilds then mixture_models_of sel else p_models p).
+  Inductive pop : Type :=
+  | PNew (cs : list nat)                     (* Thermo(cs) *)
+  | PSubset (i : nat) (sel : list nat)       (* store.append(store[i].subset(sel)) with a new list of chemicals *)
+  | PExtended (i : nat) (extra : list nat)   (* store.append(store[i].extended(extra)) *)
+  | PIdeal (i : nat)                         (* store.append(store[i].ideal()) *)
+  | PChem (f : St -> St).                    (* anything done to the chemicals (setters, resets, copies, ...) *)
 
-Definition pstep (s : list pkg) (o : pop) : list pkg :=
-  match o with
-  | PNew cs => s ++ [mkPkg false cs (mixture_models_of cs)]
-  | PSubset i sel => match nth_error s i with Some p => s ++ [subset_of p sel] | None => s end
-  | PExtended i extra =>
-      match nth_error s i with
-      | Some p => s ++ [subset_of p (p_chems p ++ filter (fun c => negb (existsb (Nat.eqb c) (p_chems p))) extra)]
-      | None => s
-      end
-  | PIdeal i =>
-      match nth_error s i with
-      | Some p => s ++ [if p_ideal p then p
-                        else if ideal_shares_chemicals_and_mixture then mkPkg true (p_chems p) (p_models p)
-                        else mkPkg true (p_chems p) []]
-      | None => s
-      end
-  end.
+  (* <Mixture>.from_chemicals(cs) in store state st *)
+  Definition build_models (st : St) (cs : list nat) : list (nat * option St) :=
+    map (fun c => (c, if mixture_models_live then None else Some st)) (mixture_models_of cs).
 
-Definition prun (s : list pkg) (ops : list pop) : list pkg := fold_left pstep ops s.
+  Definition subset_of (st : St) (p : pkg) (sel : list nat) : pkg :=
+    let rebuilds := if p_ideal p then IdealThermo_subset_rebuilds_mixture else Thermo_subset_rebuilds_mixture in
+    mkPkg (p_ideal p) sel (if rebuilds then build_models st sel else p_models p).
+
+  Definition pstate : Type := (St * list pkg)%type.
+
+  Definition pstep (s : pstate) (o : pop) : pstate :=
+    let st := fst s in let ps := snd s in
+    match o with
+    | PNew cs => (st, ps ++ [mkPkg false cs (build_models st cs)])
+    | PSubset i sel => match nth_error ps i with Some p => (st, ps ++ [subset_of st p sel]) | None => s end
+    | PExtended i extra =>
+        match nth_error ps i with
+        | Some p => (st, ps ++ [subset_of st p (p_chems p ++ filter (fun c => negb (existsb (Nat.eqb c) (p_chems p))) extra)])
+        | None => s
+        end
+    | PIdeal i =>
+        match nth_error ps i with
+        | Some p => (st, ps ++ [if p_ideal p then p
+                                else if ideal_shares_chemicals_and_mixture then mkPkg true (p_chems p) (p_models p)
+                                else mkPkg true (p_chems p) []])
+        | None => s
+        end
+    | PChem f => (f st, ps)
+    end.
+
+  Definition prun (s : pstate) (ops : list pop) : pstate := fold_left pstep ops s.
+End Pk.
+Arguments mkPkg {St}. Arguments p_ideal {St}. Arguments p_chems {St}. Arguments p_models {St}.
+Arguments PNew {St}. Arguments PSubset {St}. Arguments PExtended {St}. Arguments PIdeal {St}. Arguments PChem {St}.
